@@ -205,7 +205,8 @@ func (e *Engine) checkInverted(
 	}
 
 	return func(ctx context.Context, resultCh chan<- checkgroup.Result) {
-		innerCh := make(chan checkgroup.Result)
+		// buffered, so that the child can always deliver its result and exit
+		innerCh := make(chan checkgroup.Result, 1)
 		ctx = graph.AdoptVisited(ctx, isolatedCtx)
 		// If the child's "not a member" is only due to the depth or width
 		// limit, it must not be inverted into "member".
